@@ -262,7 +262,12 @@ static bool fresh_replay(const std::string &file, const std::string &overrides, 
   cls.clear();
   hash.clear();
   detail.clear();
+  bool refused = false;
   for (auto &line : split(out, '\n')) {
+    // a neutralised replay that crab (or the harness: unknown domain) refused has no
+    // verdict: it must not count as "the violation disappeared"
+    if (line.compare(0, 8, "REFUSAL ") == 0 && !overrides.empty())
+      refused = true;
     if (line.compare(0, 6, "CLASS ") == 0)
       cls = line.substr(6);
     if (line.compare(0, 5, "HASH ") == 0)
@@ -270,6 +275,8 @@ static bool fresh_replay(const std::string &file, const std::string &overrides, 
     if (line.compare(0, 7, "DETAIL ") == 0)
       detail = line.substr(7);
   }
+  if (refused && cls.empty())
+    return false;
   return rc == 0 || rc == 1;
 }
 
